@@ -21,6 +21,7 @@ struct SimCompressed {
 	bool dead = false;
 	uint8_t poison = 0xA5;       // written over the part of a request that is not answered
 	uint64_t calls = 0;
+	size_t short_max = 0;        // S-SHORT (C09 only): answer at most this many bytes per request although more are there
 	static size_t cb(void *buf, size_t n, void *u) {
 		SimCompressed *s = (SimCompressed *) u;
 		++s->calls;
@@ -36,6 +37,7 @@ struct SimCompressed {
 			if (s->zero_flavour) { s->dead = true; return 0; }
 			n = rem;
 		}
+		if (s->short_max && n > s->short_max) n = s->short_max;
 		if (n) memcpy(buf, s->data->data() + s->pos, n);
 		s->pos += n;
 		return n;
@@ -215,6 +217,51 @@ static void gen_reads(Rng &rng, Plan &p) {
 	p.seti("monitor_at", m == 0 ? -1 : m == 1 ? 0 : (int64_t) rng.below(p.reads.size() + 1));
 }
 
+// A second decoder of the same method, alive while the decoder under test works: its own stream (the run's stream
+// reversed and salted, so that cross-talk shows), its own source object on the heap, read in between and released - source
+// and all - at a seeded point.  Decoders are independent objects: nothing the companion does may reach the other one.
+struct Companion {
+	LHADecoder *d = nullptr;
+	SimCompressed *src = nullptr;
+	Bytes *data = nullptr;
+	Bytes ref, got;
+	size_t declared = 0;
+	bool make(LHADecoderType *dt, const Plan &p) {
+		data = new Bytes(p.stream.rbegin(), p.stream.rend());
+		for (size_t i = 0; i < data->size(); i += 3) (*data)[i] ^= (uint8_t)(0x35 + i);
+		declared = std::min<size_t>((size_t) p.geti("declared"), 20000);
+		// what it yields alone
+		{
+			SimCompressed s0; s0.data = data; s0.zero_flavour = p.gets("eod") == "zero";
+			LHADecoder *d0 = lha_decoder_new(dt, SimCompressed::cb, &s0, declared);
+			if (!d0) return false;
+			ref.resize(declared + 1);
+			size_t r = lha_decoder_read(d0, ref.data(), declared + 1);
+			ref.resize(std::min(r, declared + 1));
+			lha_decoder_free(d0);
+		}
+		src = new SimCompressed;
+		src->data = data;
+		src->zero_flavour = p.gets("eod") == "zero";
+		src->poison = 0x3C;
+		d = lha_decoder_new(dt, SimCompressed::cb, src, declared);
+		return d != nullptr;
+	}
+	void step(size_t k) {
+		if (!d) return;
+		Bytes buf(k + 1);
+		size_t n = lha_decoder_read(d, buf.data(), k);
+		if (n <= k) got.insert(got.end(), buf.begin(), buf.begin() + (long) n);
+	}
+	void release() {
+		if (d) lha_decoder_free(d);
+		d = nullptr;
+		delete src; src = nullptr;
+		delete data; data = nullptr;
+	}
+	bool consistent() const { return got.size() <= ref.size() && (got.empty() || memcmp(got.data(), ref.data(), got.size()) == 0); }
+};
+
 // ---------------------------------------------------------------- C14
 
 struct C14 : Scenario {
@@ -237,6 +284,11 @@ struct C14 : Scenario {
 		gen_stream(rng, p, false);
 		if (p.geti("declared") > (1 << 20)) p.seti("declared", 1 << 20);
 		gen_reads(rng, p);
+		if (rng.chance(1, 4)) {
+			p.seti("companion", 1);
+			p.seti("comp_free_at", (int64_t) rng.below(p.reads.size() + 2));
+			p.seti("comp_step", 1 + (int64_t) rng.below(300));
+		}
 		return p;
 	}
 	RunResult execute(const Plan &p, Plan *) override {
@@ -250,6 +302,7 @@ struct C14 : Scenario {
 		jmp_buf jb;
 		t_budget_jb = &jb;
 		g_sim.budget = 64 + 4 * p.stream.size() + 4 * declared + 16 * p.reads.size();
+		if (p.geti("companion", 0)) g_sim.budget = 2 * g_sim.budget + 200000;   // the companion's requests count as well
 		if (setjmp(jb) != 0) {
 			t_inlib = 0;
 			RunResult b;
@@ -289,10 +342,20 @@ struct C14 : Scenario {
 			LibScope ls("history");
 			LHADecoder *d = lha_decoder_new(dt, SimCompressed::cb, &src, declared);
 			if (!d) { res.fail("C14.new", "new", "lha_decoder_new failed"); return res; }
+			Companion comp;
+			bool with_comp = p.geti("companion", 0) != 0 && comp.make(dt, p);
+			size_t comp_free_at = (size_t) p.geti("comp_free_at", 0), comp_step = (size_t) p.geti("comp_step", 16);
+			if (with_comp) count("kind.companion_decoder");
 			uint16_t crc = 0;
 			bool ended = false;
 			Bytes buf;
 			for (size_t i = 0; i <= p.reads.size() && res.ok; ++i) {
+				if (with_comp && comp.d) {
+					if (i >= comp_free_at) {
+						if (!comp.consistent()) res.fail("C14.decoder_independence", "independence:companion", "a second decoder of the same method, read in between, did not yield the bytes it yields alone");
+						comp.release();
+					} else comp.step(comp_step);
+				}
 				if (!attached && monitor_at >= 0 && (size_t) monitor_at == i) {
 					lha_decoder_monitor(d, mon_cb, &mon);
 					attached = true;
@@ -320,6 +383,10 @@ struct C14 : Scenario {
 				if (c != crc) res.fail("C14.crc", "crc", strf("get_crc %04x but CRC-16 of the %zu bytes returned is %04x", c, got.size(), crc));
 			}
 			lha_decoder_free(d);
+			if (with_comp && comp.d) {
+				if (res.ok && !comp.consistent()) res.fail("C14.decoder_independence", "independence:companion", "a second decoder of the same method, read in between, did not yield the bytes it yields alone");
+				comp.release();
+			}
 		}
 		t_budget_jb = nullptr;
 		if (res.ok) {
@@ -387,6 +454,10 @@ struct C09 : Scenario {
 		// -lhx- has 2 MiB of state: keep the expensive cases rarer
 		if (p.scenario == "api") gen_reads(rng, p);
 		else p.seti("maxcalls", 1 + (int64_t) rng.below(3000));
+		// S-SHORT: the source hands over at most 1-3 bytes per request although more are there (a caller-supplied callback may)
+		if (rng.chance(1, 5)) p.seti("short", 1 + (int64_t) rng.below(3));
+		// a second decoder of the same method alive at the same time, released (with its source) half-way
+		if (p.scenario == "api" && rng.chance(1, 5)) { p.seti("companion", 1); p.seti("comp_free_at", (int64_t) rng.below(p.reads.size() + 2)); p.seti("comp_step", 1 + (int64_t) rng.below(300)); }
 		return p;
 	}
 	RunResult execute(const Plan &p, Plan *) override {
@@ -400,9 +471,13 @@ struct C09 : Scenario {
 		SimCompressed src;
 		src.data = &p.stream;
 		src.zero_flavour = zero;
+		src.short_max = (size_t) p.geti("short", 0);
+		if (src.short_max) count("fault.S-SHORT");
 		jmp_buf jb;
 		t_budget_jb = &jb;
 		g_sim.budget = 4096 + 8 * p.stream.size() + 8 * declared + 16 * p.reads.size() + 64 * (uint64_t) p.geti("maxcalls");
+		if (src.short_max) g_sim.budget *= 8;
+		if (p.geti("companion", 0)) g_sim.budget = g_sim.budget * 2 + 200000;
 		if (setjmp(jb) != 0) {
 			t_inlib = 0;
 			RunResult b;
@@ -433,7 +508,12 @@ struct C09 : Scenario {
 			LibScope ls("api");
 			LHADecoder *d = lha_decoder_new(dt, SimCompressed::cb, &src, declared);
 			if (d) {
+				Companion comp;
+				bool with_comp = p.geti("companion", 0) != 0 && comp.make(dt, p);
+				size_t comp_free_at = (size_t) p.geti("comp_free_at", 0), comp_step = (size_t) p.geti("comp_step", 16);
+				if (with_comp) count("kind.companion_decoder");
 				for (size_t i = 0; i < p.reads.size(); ++i) {
+					if (with_comp && comp.d) { if (i >= comp_free_at) comp.release(); else comp.step(comp_step); }
 					size_t k = p.reads[i];
 					uint8_t *buf = (uint8_t *) malloc(k ? k : 1);   // exact size: red zone right behind
 					size_t n = lha_decoder_read(d, buf, k);
@@ -443,6 +523,7 @@ struct C09 : Scenario {
 					if (n > k) { res.fail("C09.read_exceeds_request", "read_exceeds_request", strf("read(%zu) returned %zu", k, n)); break; }
 				}
 				lha_decoder_free(d);
+				comp.release();
 			}
 		}
 		t_budget_jb = nullptr;
